@@ -43,10 +43,15 @@ func NewHTTPResponseBody(
 			return HTTPResponseBody{}, adoptErrorForResponseBody(d, err)
 		}
 	case SerializeFormatPlainString:
-		s, err = NewExchangeRegexSchema(b)
+		var rs *ExchangeRegexSchema
+		if rs, err = NewExchangeRegexSchema(b); err == nil {
+			// an invalid pattern is a fault of the document, not of a later serialisation
+			err = rs.Check()
+		}
 		if err != nil {
 			return HTTPResponseBody{}, adoptErrorForResponseBody(d, err)
 		}
+		s = rs
 	default:
 		s = NewExchangePseudoSchema(sn)
 	}
